@@ -2,15 +2,18 @@ use clap::Parser;
 use jawk::go;
 use jawk::Cli;
 use std::cell::RefCell;
+use std::io::Write;
 use std::rc::Rc;
 
 fn main() {
     let cli = Cli::parse();
     let stdout = Rc::new(RefCell::new(std::io::stdout()));
     let stdin = Box::new(std::io::stdin);
-    let stderr = Rc::new(RefCell::new(std::io::stdout()));
+    let stderr = Rc::new(RefCell::new(std::io::stderr()));
 
-    if let Err(err) = go(cli, stdout, stderr, stdin) {
+    let result = go(cli, stdout.clone(), stderr, stdin);
+    let result = result.and_then(|()| Ok(stdout.borrow_mut().flush()?));
+    if let Err(err) = result {
         eprintln!("{err}");
         std::process::exit(-1);
     }
